@@ -1,6 +1,7 @@
 """C07 - RAM and SQL datastores are observationally equivalent behind the service."""
 import collections
 
+import c07_datastore
 import speca
 import svc
 import replay as replay_mod
@@ -53,6 +54,10 @@ def run(ctx):
   nontrivial = set()
   import concurrent.futures as cf
   with tlc.Scratch('c07') as d:
+    layer = c07_datastore.run(ctx, d)           # layer 0: each backend against the datastore contract (DataStore.tla)
+    cov['states'] += layer['states']
+    cov['transitions'] += layer['transitions']
+    cov['traces_validated_against_impl'] += layer['replayed']
     rs = rounds(ctx)
     with cf.ThreadPoolExecutor(max_workers=4) as ex:
       futs = [ex.submit(svc.tlc_round, r['name'], r['consts'], d, r.get('expect', ())) for r in rs]
@@ -107,7 +112,7 @@ def run(ctx):
   for k, v in sub.known_hits.items():
     ctx.known_hits[k] = ctx.known_hits.get(k, 0) + v
   ctx.samples += sub.samples
-  cov['distinct_nontrivial'] = len(nontrivial) + sub.coverage.get('distinct_nontrivial', 0)
+  cov['distinct_nontrivial'] = len(nontrivial) + sub.coverage.get('distinct_nontrivial', 0) + cov['datastore_contract']['distinct_nontrivial']
   cov['evaluations'] = cov['traces_validated_against_impl']
   cov['rule'] = 'a case is one call history executed on a backend; non-trivial = contains a state-changing call; distinct by abstract call sequence'
   cov['exhaustive'] = True
@@ -122,6 +127,23 @@ def common_ctx(ctx):
 
 def replay(ctx, case):
   c = case['case']
+  if c.get('kind') == 'datastore':
+    import dsworld
+    with tlc.Scratch('c07') as d:
+      w = dsworld.World(c['conf'], backend=c['backend'], scratch=d)
+      resp = None
+      for call in c['hist']:
+        resp = w.run(call)
+      resp.pop('exc', None)
+      st = w.project()
+      w.close()
+    if resp != c['expected']['resp'] or st != c['expected']['st']:
+      ctx.violation(dict(case['sig']), c)
+      print('replay: %s still deviates from the datastore contract: got %s' % (c['backend'], resp))
+    else:
+      print('replay: %s now follows the datastore contract on this history' % c['backend'])
+    ctx.coverage.update({'states': 1, 'transitions': 1, 'traces_validated_against_impl': 1})
+    return
   if c.get('kind') == 'replay':
     import world
     obs = {}
